@@ -306,7 +306,15 @@ Advance ==
 
 Env == (\E t \in tasks : WorkerFinish(t)) \/ (\E m \in ExtMenu : ExtSend(m)) \/ ExtCancel \/ Advance
 
-Next == Internal \/ Env
+(* the same actions addressed by the constant (step, worker slot) so that TLC can label them *)
+WakeWorkerAt(s, w) == \E t \in tasks : t.step = s /\ t.wid = w /\ WakeWorker(t)
+WorkerFinishAt(s, w) == \E t \in tasks : t.step = s /\ t.wid = w /\ WorkerFinish(t)
+
+(* = Internal \/ Env, spelled out so that TLC labels every transition with its action and arguments *)
+Next == \/ Drain \/ EnterWait \/ WakePull \/ WakeTimeout \/ PullTake \/ ExtCancel \/ Advance
+        \/ \E s \in R!StepSet, w \in 0..3 : WakeWorkerAt(s, w)
+        \/ \E s \in R!StepSet, w \in 0..3 : WorkerFinishAt(s, w)
+        \/ \E m \in ExtMenu : ExtSend(m)
 Spec == Init /\ [][Next]_vars
 
 =============================================================================
